@@ -3,7 +3,7 @@ import itertools
 
 from .. import impl, sched
 from ..diff import compile_cached
-from ..runner import Acc, watchdog, Hang
+from ..runner import Acc, watchdog, Hang, in_child
 from ..terms import A, C, F, V, L, NIL, call, conj, TRUE, CUT, show_program, show_term
 
 ID = 'C04'
@@ -292,6 +292,13 @@ def plan(tier):
 
 
 def run_shard(spec):
+    if spec[0] == 'c':
+        # real threads: a schedule that deadlocks leaves blocked threads and held locks behind
+        return in_child(_run_shard, spec)
+    return _run_shard(spec)
+
+
+def _run_shard(spec):
     acc = Acc()
     kind = spec[0]
     if kind == 'a':
@@ -425,6 +432,20 @@ def run_shard(spec):
                               key='%d|%s' % (variant, compress(x.choices)))
             else:
                 acc.outcome((variant, repr(got)))
+        try:
+            _threads_part(acc, pytext, variant, bound, k, n, check)
+        except sched.Deadlock as e:
+            # the blocked threads cannot be recovered: the shard ends here
+            acc.n['evaluations'] += 1
+            acc.n['validated'] += 1
+            acc.violation('threads:deadlock', (2, variant, len(e.choices)), {'kind': 'c', 'variant': variant, 'schedule': compress(e.choices)},
+                          'two threads, each with its own engine (variant %d); schedule with preemptions at points %s: %s\n'
+                          'each body alone terminates with %r' % (variant, [i for i, c in enumerate(e.choices) if c], e, solo),
+                          key='%d|deadlock' % variant)
+    return acc
+
+
+def _threads_part(acc, pytext, variant, bound, k, n, check):
         # determinism of the explorer itself: the default schedule twice
         if k == 0:
             x1 = sched.Baton(thread_bodies(pytext, variant), [], in_scope).run()
@@ -440,7 +461,6 @@ def run_shard(spec):
             acc.n['validated'] -= 1
         if k == 0:
             acc.sample({'part': 'c', 'variant': variant, 'preemption_bound': bound, 'executions_in_this_shard': st['executions']}, limit=3)
-    return acc
 
 
 def compress(choices):
@@ -476,7 +496,10 @@ def replay(case):
         return [] if got == want else [('one-engine:suspended-queries-interfere', 'observed %r\nalone %r' % (got, want))]
     pytext = impl.compile_text(show_program(PROG_C))
     solo = [b() for b in thread_bodies(pytext, case['variant'])]
-    x = sched.Baton(thread_bodies(pytext, case['variant']), expand([tuple(p) for p in case['schedule']]), in_scope).run()
+    try:
+        x = sched.Baton(thread_bodies(pytext, case['variant']), expand([tuple(p) for p in case['schedule']]), in_scope).run()
+    except sched.Deadlock as e:
+        return [('threads:deadlock', '%s\nalone %r' % (e, solo))]
     got = [x.results.get(0), x.results.get(1)]
     if x.errors or got != solo:
         return [('threads:log-differs', 'observed %r %r\nalone %r' % (got, x.errors, solo))]
